@@ -16,7 +16,8 @@ let tok (t : tname) : string = match t with
 let abs_tok (t : tname) : string = match t with TMe u -> "m" ^ string_of_n u | _ -> tok t
 let what_str = function
   | WOn -> "on" | WOff -> "off" | WUnkn -> "?unkn" | WNone -> "?none" | WGone -> "gone" | WMsg -> "msg"
-  | WAcs -> "acs" | WUpd -> "upd" | WOther -> "other"
+  | WAcs -> "acs" | WUpd -> "upd" | WOther -> "other" | WDel -> "del" | WRead -> "read" | WRecv -> "recv"
+  | WIRead -> "i:read" | WIRecv -> "i:recv" | WIKp -> "i:kp"
 let b2s b = if b then "1" else "0"
 
 let out_str (o : out) : string option = match o with
@@ -28,6 +29,7 @@ let out_str (o : out) : string option = match o with
     Some (Printf.sprintf "F %d %s %s %s" (int_of_n sid) seen (tok src) (what_str w))
   | Ctrl (sid, code) -> Some (Printf.sprintf "C %d %d" (int_of_n sid) (int_of_z code))
   | Skipped -> Some "skipped"
+  | Unmodelled -> Some "unmodelled"
 
 let parse_ref (r : string) : tref =
   if r = "me" then RMe
@@ -64,10 +66,12 @@ let dump (s : state) : string list =
       let sl = List.sort compare (List.map (fun (sid, uid) ->
         Printf.sprintf "%d:%d:%s" (int_of_n sid) (int_of_n uid) (sess_bkg_str s sid)) x.t_sess) in
       add (Printf.sprintf "T %s marked=%s sess=%s" tk (b2s x.t_marked) (if sl = [] then "-" else String.concat "," sl));
+      (* perUser: a p2p entry stays (deleted=1) after an unsubscribe, a group entry is dropped *)
+      let isp2p = (match t with TP2P _ -> true | _ -> false) in
       List.iter (fun (u, p) ->
-        if not p.p_deleted then
-          add (Printf.sprintf "U %s %d want=%d given=%d online=%s deleted=0" tk (int_of_n u) (int_of_n p.p_want) (int_of_n p.p_given)
-                 (string_of_z p.p_online))) x.t_users
+        if isp2p || not p.p_deleted then
+          add (Printf.sprintf "U %s %d want=%d given=%d online=%s deleted=%s" tk (int_of_n u) (int_of_n p.p_want) (int_of_n p.p_given)
+                 (string_of_z p.p_online) (b2s p.p_deleted))) x.t_users
     end;
     List.iter (fun (u, p) ->
       add (Printf.sprintf "R %s %d want=%d given=%d deleted=%s" tk (int_of_n u) (int_of_n p.p_want) (int_of_n p.p_given) (b2s p.p_deleted)))
@@ -103,6 +107,10 @@ let handle (w : string list) : string =
      | "given" -> do_op (Given (n 0, parse_ref (List.nth a 1), n 2, n 3))
      | "evict" -> do_op (Evict (n 0, parse_ref (List.nth a 1), n 2))
      | "pub" -> do_op (Pub (n 0, parse_ref (List.nth a 1)))
+     | "note" ->
+       let w = (match List.nth a 2 with "kp" -> WIKp | "read" -> WIRead | "recv" -> WIRecv | _ -> WOther) in
+       do_op (Note (n 0, sid_user 0, parse_ref (List.nth a 1), w, z_of_string (List.nth a 3)))
+     | "delmsg" -> do_op (DelMsg (n 0, parse_ref (List.nth a 1), flag 2))
      | "unload" -> do_op (Unload (parse_abs (List.nth a 0)))
      | "unload1" -> do_op (UnloadHub (parse_abs (List.nth a 0)))
      | "unload2" -> do_op (UnloadOff (parse_abs (List.nth a 0)))
